@@ -51,7 +51,7 @@ def mk_field(values, valid, h, periodic, nvdim=1):
     L = len(valid)
     mesh = df.Mesh(p1=0.0, p2=L * h, n=L, bc="x" if periodic else "")
     arr = np.asarray(values, dtype=float).reshape(L, nvdim)
-    return df.Field(mesh, nvdim=nvdim, value=arr, valid=np.asarray(valid, dtype=bool))
+    return df.Field(mesh, nvdim=nvdim, value=np.array(arr, copy=True), valid=np.asarray(valid, dtype=bool))
 
 
 def dmax(m, order):
@@ -235,7 +235,7 @@ def check_embed(case):
     dims = gen.dims_of(g)
     arr = gen.make_array(case["seed"], (*n, nvdim), "int")
     mask = gen.make_mask(case["mask"], n)
-    f = df.Field(mesh, nvdim=nvdim, value=arr, valid=mask, unit=case["unit"])
+    f = df.Field(mesh, nvdim=nvdim, value=np.array(arr, copy=True), valid=np.array(mask, copy=True), unit=case["unit"])
     periodic = case["bc"] not in ("neumann", "dirichlet") and dims[ax] in case["bc"]
     tag(f"ndim={nd}")
     tag("periodic" if periodic else "open")
@@ -268,7 +268,7 @@ def check_embed(case):
     if st_ is not None:
         # complex storage: the numbers times (1 + 0.5i) - by linearity the derivative times (1 + 0.5i)
         zf = (1 + 0.5j) if st_ is np.complex128 else 1
-        f2 = df.Field(mesh, nvdim=nvdim, value=arr.astype(st_) * zf, dtype=st_, valid=mask, unit=case["unit"])
+        f2 = df.Field(mesh, nvdim=nvdim, value=arr.astype(st_) * zf, dtype=st_, valid=np.array(mask, copy=True), unit=case["unit"])
         res2 = f2.diff(dims[ax], order=order, restrict2valid=case["r2v"])
         rtol = 1e-5 if st_ is np.float32 else 1e-12
         want2 = res.array * zf
